@@ -7,6 +7,7 @@ package c01
 // non-vacuity clause).
 
 import (
+	"bytes"
 	"context"
 	"errors"
 	"fmt"
@@ -51,6 +52,9 @@ type world interface {
 	// benign tells whether everything the source did up to now (all passes) was
 	// spec-conforming and within the client's retry budget; why names the first reason it was not.
 	benign() (ok bool, why string)
+	// drained tells whether the source has handed out every byte of the current pass' stream
+	// including its end-of-stream result (ok=false: not observable).
+	drained() (done bool, ok bool)
 	// spun tells whether the source broke a no-progress loop of the consumer.
 	spun() bool
 	// notes returns class labels observed while running.
@@ -80,7 +84,12 @@ type source struct {
 	zeroRun   int
 	didSpin   bool
 	usedTrans bool
+	sawEnd    bool // the terminal result of the current pass was returned at least once
+	closed    bool
 }
+
+// Close lets the source act as an http.Response body (blob.WithResp).
+func (s *source) Close() error { s.closed = true; return nil }
 
 func (s *source) plan() *srcPlan { return &s.plans[min(s.cur, len(s.plans)-1)] }
 
@@ -98,6 +107,7 @@ func (s *source) Read(p []byte) (int, error) {
 	atEnd := s.pos >= len(pl.data)
 	if len(p) == 0 {
 		if atEnd && !pl.zeroNilAtEnd {
+			s.sawEnd = true
 			return 0, pl.terminal
 		}
 		return s.zero()
@@ -108,6 +118,7 @@ func (s *source) Read(p []byte) (int, error) {
 		return 0, errTransient
 	}
 	if atEnd {
+		s.sawEnd = true
 		return 0, pl.terminal
 	}
 	c := pl.chunks[s.step%len(pl.chunks)]
@@ -121,6 +132,7 @@ func (s *source) Read(p []byte) (int, error) {
 	s.pos += n
 	s.zeroRun = 0
 	if s.pos >= len(pl.data) && pl.eofWithData {
+		s.sawEnd = true
 		return n, pl.terminal
 	}
 	return n, nil
@@ -131,7 +143,7 @@ func (s *source) Seek(offset int64, whence int) (int64, error) {
 		return int64(s.pos), errors.New("harness: only Seek(0, SeekStart) is supported")
 	}
 	// the pass index was advanced by nextPass
-	s.pos, s.step, s.transDone, s.out, s.zeroRun = 0, 0, false, nil, 0
+	s.pos, s.step, s.transDone, s.out, s.zeroRun, s.sawEnd = 0, 0, false, nil, 0, false
 	return 0, nil
 }
 
@@ -164,16 +176,74 @@ func (w *readerWorld) open(ctx context.Context, d descriptor.Descriptor) (*blob.
 	if w.c.Unseekable {
 		rdr = struct{ io.Reader }{w.src}
 	}
-	opts := []blob.Opts{blob.WithReader(rdr), blob.WithDesc(d)}
-	if w.c.Passes[0].HdrOfServed {
-		// headers vouching for the served stream; the caller's descriptor must win
-		h := http.Header{}
+	// headers (of whatever the source claims about the served stream); the caller's descriptor must win
+	var h http.Header
+	if hk := w.c.Passes[0].hdrKind(); hk != "req" || w.c.ViaResp {
+		h = http.Header{}
 		h.Set("Content-Type", "application/octet-stream")
 		h.Set("Content-Length", strconv.Itoa(len(w.streams[0])))
-		h.Set("Docker-Content-Digest", digestOf(w.c.Algo, w.streams[0]))
+		if v := hdrDigest(hk, w.c.Algo, d.Digest.String(), w.streams[0]); v != "" {
+			h.Set("Docker-Content-Digest", v)
+		}
+	}
+	if w.c.ViaResp {
+		var body io.ReadCloser = w.src
+		if w.c.Unseekable {
+			body = struct {
+				io.Reader
+				io.Closer
+			}{w.src, w.src}
+		}
+		return blob.NewReader(blob.WithResp(&http.Response{StatusCode: 200, Header: h, Body: body}), blob.WithDesc(d)), nil
+	}
+	opts := []blob.Opts{blob.WithReader(rdr), blob.WithDesc(d)}
+	if h != nil {
 		opts = append(opts, blob.WithHeader(h))
 	}
 	return blob.NewReader(opts...), nil
+}
+
+// tarDirect builds the tar reader with the public constructor instead of ToTarReader.
+func (w *readerWorld) tarDirect(d descriptor.Descriptor) *blob.BTarReader {
+	var rdr io.Reader = w.src
+	if w.c.Unseekable {
+		rdr = struct{ io.Reader }{w.src}
+	}
+	return blob.NewTarReader(blob.WithReader(rdr), blob.WithDesc(d))
+}
+func (w *readerWorld) drained() (bool, bool) {
+	pl := w.src.plan()
+	return w.src.sawEnd && w.src.pos >= len(pl.data) && pl.terminal == io.EOF, true
+}
+
+// hdrKind is the effective header variant of a pass.
+func (p Pass) hdrKind() string {
+	switch p.HdrKind {
+	case "served", "none", "malformed", "otheralgo", "req":
+		return p.HdrKind
+	}
+	if p.HdrOfServed {
+		return "served"
+	}
+	return "req"
+}
+
+// hdrDigest is the Docker-Content-Digest value a source sends ("" = header absent).
+func hdrDigest(kind, algo, requested string, served []byte) string {
+	switch kind {
+	case "served":
+		return digestOf(algo, served)
+	case "none":
+		return ""
+	case "malformed":
+		return "sha256:not-a-digest"
+	case "otheralgo":
+		if algo == "sha512" {
+			return digestOf("sha256", served)
+		}
+		return digestOf("sha512", served)
+	}
+	return requested
 }
 func (w *readerWorld) nextPass(p int)      { w.src.cur = p }
 func (w *readerWorld) stream(p int) []byte { return w.streams[p] }
@@ -204,9 +274,12 @@ func (w *readerWorld) close() {}
 // ---------------------------------------------------------------- entry (b): registry (regmodel)
 
 const (
-	regHost   = "reg.example.test"
-	storeHost = "store.example.test"
-	regRepo   = "proj/app"
+	regHost    = "reg.example.test"
+	storeHost  = "store.example.test"
+	mirrorHost = "mirror.example.test"
+	extHost    = "ext.example.test"
+	extPath    = "/files/blob"
+	regRepo    = "proj/app"
 )
 
 // getRec is what one GET of the blob content was answered with.
@@ -237,6 +310,9 @@ type regWorld struct {
 	cancel   context.CancelFunc
 	blocked  bool // the client blocked on its own throttle slot (see hook.go)
 	stallAt  int  // >= 0: the body of the response being built stalls after that many bytes
+	mirrorStream []byte
+	lastEOF      bool // the last thing a content body returned was io.EOF and no GET followed
+	hostsUsed    map[string]bool
 }
 
 func newRegWorld(c *Case, content []byte, dig string) *regWorld {
@@ -245,24 +321,28 @@ func newRegWorld(c *Case, content []byte, dig string) *regWorld {
 		w.streams = append(w.streams, p.Corr.apply(content))
 	}
 	w.stallAt = -1
+	w.hostsUsed = map[string]bool{}
+	if c.Mirror != nil {
+		w.mirrorStream = c.Mirror.apply(content)
+	}
 	return w
 }
 
-func (w *regWorld) contentHost() string {
-	if w.c.Redirect {
-		return storeHost
+// isContentReq tells whether a GET of host/path is answered with the blob's bytes.
+func (w *regWorld) isContentReq(host, path string) bool {
+	switch {
+	case w.c.External > 0:
+		return host == extHost && path == extPath
+	case w.c.Redirect:
+		return host == storeHost && strings.HasSuffix(path, "/"+w.dig)
+	case w.c.Mirror != nil && host == mirrorHost:
+		return strings.HasSuffix(path, "/blobs/"+w.dig)
 	}
-	return regHost
+	return host == regHost && strings.HasSuffix(path, "/blobs/"+w.dig)
 }
 
 func (w *regWorld) isContentGet(e *rm.Entry) bool {
-	if e.Method != "GET" || e.Host != w.contentHost() {
-		return false
-	}
-	if w.c.Redirect {
-		return e.Class == "storage-get" && e.Ref == w.dig
-	}
-	return e.Class == "blob-get" && e.Ref == w.dig
+	return e.Method == "GET" && w.isContentReq(e.Host, e.Path)
 }
 
 // onArrive picks the scripted answer for a content GET and registers its
@@ -274,6 +354,8 @@ func (w *regWorld) onArrive(e *rm.Entry) {
 	p := min(w.pass, len(w.c.Passes)-1)
 	i := w.perPass[p]
 	w.perPass[p]++
+	w.lastEOF = false
+	w.hostsUsed[e.Host] = true
 	g := Get{Kind: "ok"}
 	if i < len(w.c.Passes[p].Gets) {
 		g = w.c.Passes[p].Gets[i]
@@ -319,16 +401,17 @@ func (w *regWorld) intercept(m *rm.Model, h *rm.Host, e *rm.Entry, req *http.Req
 	delete(w.pending, e.Seq)
 	p := min(w.pass, len(w.c.Passes)-1)
 	S := w.streams[p]
+	if e.Host == mirrorHost {
+		S = w.mirrorStream
+	}
 	a, hasRange := parseRangeStart(req)
 	rec := getRec{pass: p, kind: g.Kind, hasRange: hasRange, fault: g.Fault}
 	mk := func(status int, body []byte) *rm.Resp {
 		r := &rm.Resp{Status: status, Header: http.Header{}, Body: body, TruncateAt: -1}
 		r.Header.Set("Content-Type", "application/octet-stream")
-		if !w.c.Redirect {
-			if w.c.Passes[p].HdrOfServed {
-				r.Header.Set("Docker-Content-Digest", digestOf(w.c.Algo, S))
-			} else {
-				r.Header.Set("Docker-Content-Digest", w.dig)
+		if !w.c.Redirect && w.c.External == 0 {
+			if v := hdrDigest(w.c.Passes[p].hdrKind(), w.c.Algo, w.dig, S); v != "" {
+				r.Header.Set("Docker-Content-Digest", v)
 			}
 		}
 		return r
@@ -394,6 +477,17 @@ func (w *regWorld) intercept(m *rm.Model, h *rm.Host, e *rm.Entry, req *http.Req
 			st = 200
 		}
 		r = mk(st, S[from:])
+	case "alt2xx":
+		// a conforming answer under another 2xx status
+		if hasRange && a < len(S) {
+			r = mk(g.Status, S[a:])
+			cr(r, a)
+		} else {
+			r = mk(g.Status, S)
+		}
+		if (hasRange && g.Status == 206) || (!hasRange && g.Status == 200) {
+			rec.kind = "ok"
+		}
 	default: // ok: a conforming server
 		rec.kind = "ok"
 		if hasRange {
@@ -437,8 +531,7 @@ func (s *shaper) RoundTrip(req *http.Request) (*http.Response, error) {
 		return resp, err
 	}
 	w := s.w
-	if req.Method == "GET" && req.URL.Host == w.contentHost() && resp.StatusCode >= 200 && resp.StatusCode < 300 &&
-		strings.HasSuffix(req.URL.Path, "/"+w.dig) {
+	if req.Method == "GET" && resp.StatusCode >= 200 && resp.StatusCode < 300 && w.isContentReq(req.URL.Host, req.URL.Path) {
 		p := w.c.Passes[min(w.pass, len(w.c.Passes)-1)]
 		resp.Body = &shapedBody{w: w, inner: resp.Body, chunks: p.Chunks, withData: p.EOFWithData, stallAt: w.stallAt}
 	}
@@ -494,6 +587,7 @@ func (b *shapedBody) Read(p []byte) (int, error) {
 		b.fillBuf()
 	}
 	if len(b.buf) == 0 {
+		b.w.lastEOF = b.err == io.EOF
 		return 0, b.err
 	}
 	if len(p) == 0 {
@@ -518,6 +612,7 @@ func (b *shapedBody) Read(p []byte) (int, error) {
 			b.fillBuf()
 		}
 		if len(b.buf) == 0 {
+			b.w.lastEOF = b.err == io.EOF
 			return n, b.err
 		}
 	}
@@ -530,15 +625,39 @@ func (w *regWorld) setup() {
 	w.m = rm.New()
 	w.m.Cap = 400
 	h := w.m.AddHost(regHost)
-	h.Repo(regRepo).Blobs[w.dig] = w.content
 	ch := h
-	if w.c.Redirect {
+	switch {
+	case w.c.External > 0:
+		// the registry does not hold the blob (404): foreign layer served from its URL
+		h.Repo(regRepo)
+		ch = w.m.AddExternal(extHost)
+		ch.Files[extPath] = w.content
+	case w.c.Redirect:
+		h.Repo(regRepo).Blobs[w.dig] = w.content
 		h.Feat.BlobRedirect = storeHost
+		h.Feat.RedirectStatus = w.c.RedirectStatus
 		ch = w.m.AddStorage(storeHost, h)
+	default:
+		h.Repo(regRepo).Blobs[w.dig] = w.content
 	}
 	ch.Intercept = w.intercept
 	w.m.OnArrive = w.onArrive
 	hc := config.Host{Name: regHost, Hostname: regHost}
+	hosts := []config.Host{}
+	if w.c.Mirror != nil {
+		mh := w.m.AddHost(mirrorHost)
+		mh.Repo(regRepo).Blobs[w.dig] = w.mirrorStream
+		mh.Intercept = w.intercept
+		hc.Mirrors = []string{mirrorHost}
+		mc := config.Host{Name: mirrorHost, Hostname: mirrorHost}
+		if w.c.ReqConcurrent > 0 {
+			mc.ReqConcurrent = int64(w.c.ReqConcurrent)
+		}
+		if !throttleHookAvailable {
+			mc.ReqConcurrent = 64
+		}
+		hosts = append(hosts, mc)
+	}
 	if w.c.ReqConcurrent > 0 {
 		hc.ReqConcurrent = int64(w.c.ReqConcurrent)
 	}
@@ -548,7 +667,7 @@ func (w *regWorld) setup() {
 	}
 	w.rc = rcutil.New(w.m, rcutil.Conf{
 		RetryLimit: w.c.RetryLimit, DelayInit: 50 * time.Microsecond, DelayMax: 400 * time.Microsecond,
-		Hosts:   []config.Host{hc},
+		Hosts:   append(hosts, hc),
 		RegOpts: []reg.Opts{reg.WithHTTPClient(&http.Client{Transport: &shaper{w: w}})},
 	})
 }
@@ -557,12 +676,26 @@ func (w *regWorld) open(ctx context.Context, d descriptor.Descriptor) (*blob.BRe
 	w.setup()
 	w.ctx, w.cancel = context.WithCancel(ctx)
 	setThrottleHook(w)
-	r, err := ref.New(regHost + "/" + regRepo)
+	name := regHost + "/" + regRepo
+	if w.c.RefForm&1 != 0 {
+		name += ":v1"
+	}
+	if w.c.RefForm&2 != 0 {
+		name += "@" + w.dig
+	}
+	r, err := ref.New(name)
 	if err != nil {
-		return nil, err
+		return nil, fmt.Errorf("harness: %w", err)
+	}
+	for i := 1; i < w.c.External; i++ {
+		d.URLs = append(d.URLs, fmt.Sprintf("https://%s/files/missing-%d", extHost, i))
+	}
+	if w.c.External > 0 {
+		d.URLs = append(d.URLs, "https://"+extHost+extPath)
 	}
 	return w.rc.BlobGet(w.ctx, r, d)
 }
+func (w *regWorld) drained() (bool, bool) { return w.lastEOF, true }
 
 func (w *regWorld) nextPass(p int) {
 	w.pass = p
@@ -614,6 +747,9 @@ func (w *regWorld) benign() (bool, string) {
 	if w.m != nil && w.m.CapHit() {
 		return false, "request cap hit"
 	}
+	if w.c.Mirror != nil && !bytes.Equal(w.mirrorStream, w.content) {
+		return false, "the mirror holds different bytes"
+	}
 	return true, ""
 }
 
@@ -641,6 +777,25 @@ func (w *regWorld) notes() []string {
 	}
 	if len(w.recs) > 1 {
 		add("reg:multi-get")
+	}
+	switch {
+	case w.c.External > 0:
+		add("reg:external-url-" + strconv.Itoa(w.c.External))
+	case w.c.Redirect:
+		add("reg:redirect-" + strconv.Itoa(w.c.RedirectStatus))
+	case w.c.Mirror != nil:
+		add("reg:mirror")
+		if len(w.hostsUsed) > 1 {
+			add("reg:mirror-both-hosts-served")
+		}
+		if !bytes.Equal(w.mirrorStream, w.content) {
+			add("reg:mirror-corrupted")
+		}
+	}
+	for _, r := range w.recs {
+		if r.kind == "alt2xx" {
+			add("status:alt2xx-" + strconv.Itoa(r.status))
+		}
 	}
 	if w.blocked {
 		add("reg:blocked-on-own-throttle")
@@ -705,9 +860,16 @@ func (w *ocidirWorld) open(ctx context.Context, d descriptor.Descriptor) (*blob.
 		return nil, fmt.Errorf("harness: %w", err)
 	}
 	w.rc = regclient.New(quiet())
-	r, err := ref.New("ocidir://" + dir)
+	name := "ocidir://" + dir
+	if w.c.RefForm&1 != 0 {
+		name += ":v1"
+	}
+	if w.c.RefForm&2 != 0 {
+		name += "@" + w.dig
+	}
+	r, err := ref.New(name)
 	if err != nil {
-		return nil, err
+		return nil, fmt.Errorf("harness: %w", err)
 	}
 	return w.rc.BlobGet(ctx, r, d)
 }
@@ -728,6 +890,7 @@ func (w *ocidirWorld) nextPass(p int) {
 func (w *ocidirWorld) stream(p int) []byte       { return w.onDisk[p] }
 func (w *ocidirWorld) delivered() ([]byte, bool) { return nil, false }
 func (w *ocidirWorld) benign() (bool, string)    { return true, "" }
+func (w *ocidirWorld) drained() (bool, bool)     { return false, false }
 func (w *ocidirWorld) spun() bool                { return false }
 func (w *ocidirWorld) notes() []string {
 	if w.pass > 0 {
@@ -799,6 +962,12 @@ func (w *dataWorld) benign() (bool, string) {
 	return w.backing.benign()
 }
 func (w *dataWorld) spun() bool { return w.backing != nil && w.backing.spun() }
+func (w *dataWorld) drained() (bool, bool) {
+	if w.backing == nil {
+		return false, false
+	}
+	return w.backing.drained()
+}
 func (w *dataWorld) notes() []string {
 	out := []string{}
 	if w.backing != nil {
